@@ -863,6 +863,11 @@ pub fn check(ctx: &Ctx) {
             }
         }
     }
+    // many one-pass signatures in front of the literal under the smallest AEAD chunks (the
+    // writer's pieces end inside packet headers)
+    for (cfg, n) in crate::props::c01::many_signer_cfgs() {
+        wc.push(WrittenCase { cfg, n });
+    }
     // partial chunk sizes the format does not allow (below 512): refused, or nothing illegal written
     for cfg in spine.iter().filter(|c| !c.text && c.signers.len() <= 1) {
         for exp in 1..=8u8 {
@@ -876,7 +881,7 @@ pub fn check(ctx: &Ctx) {
     ctx.run_space(
         "written_streams",
         true,
-        "every stream MessageBuilder writes for the 108 unarmored spine configurations (source x compression none/zip/zlib x plain/SEIPDv1/SEIPDv2 x signers x mode) x payload lengths (quick: 13 boundary lengths; thorough: every length 0..1600 + large), partial size 512 and 8192: deframed by the reference deframer at every nesting level (encrypted containers opened with the reference crypto model, compressed ones with flate2): framing legal, lengths truthful, literal body = payload.",
+        "every stream MessageBuilder writes for the 108 unarmored spine configurations (source x compression none/zip/zlib x plain/SEIPDv1/SEIPDv2 x signers x mode) x payload lengths (quick: 13 boundary lengths; thorough: every length 0..1600 + large), partial size 512 and 8192; plus 0..8 signers x AEAD chunks of 64 / 128 / 256 octets x known-length / streamed source: deframed by the reference deframer at every nesting level (encrypted containers opened with the reference crypto model, compressed ones with flate2): framing legal, lengths truthful, literal body = payload.",
         wc.into_par_iter(),
         run_written,
     );
